@@ -307,7 +307,7 @@ impl MDBShardInfo {
 //@ before `ret.push(cas_info);`
             proof {
                 let k = cv(ret).len() as int;
-                if k >= sec.len() { assert(false); }
+                if k >= sec.len() { /*@C09*/ assert(false); } /* tagged: a non-bookend header is a record of the section (the scan cannot pass the bookend) */
                 lemma_cas_pos_step(off, sec, k);
             }
 //@ end
@@ -341,7 +341,7 @@ impl MDBShardInfo {
 //@ before `ret.push(mdb_file);`
             proof {
                 let k = fv(ret).len() as int;
-                if k >= sec.len() { assert(false); }
+                if k >= sec.len() { /*@C09*/ assert(false); } /* tagged: a non-bookend header is a record of the section (the scan cannot pass the bookend) */
                 lemma_file_pos_step(off, sec, k);
             }
 //@ end
@@ -387,7 +387,7 @@ impl MDBShardInfo {
 //@ before `break;`
                 proof { let k = rv(ret).len() as int; if k < sec.len() { assert(file_hdr_at(data0, file_pos(off, sec, k)) == sec[k]); } }
 //@ before `let byte_start = reader.stream_position()?;`
-            proof { let k = rv(ret).len() as int; if k >= sec.len() { assert(false); } lemma_file_pos_step(off, sec, k); }
+            proof { let k = rv(ret).len() as int; if k >= sec.len() { /*@C09*/ assert(false); } /* tagged: a non-bookend header is a record of the section (the scan cannot pass the bookend) */ lemma_file_pos_step(off, sec, k); }
 //@ end
 
 //@ extract mdb_shard/src/shard_format.rs in `impl MDBShardInfo` fn read_all_truncated_hashes
@@ -429,7 +429,7 @@ impl MDBShardInfo {
             if self.metadata.chunk_lookup_num_entry == 0 {
                 lemma_cas_pos_push(off, sec0, bk, n0);
                 assert(cas_pos(off, sec, n0 + 1) == cas_pos(off, sec, n0) + 48 + 48 * sec[n0].num_entries);
-                if kk <= n0 { lemma_cas_pos_mono2(off, sec, kk, n0); assert(false); }
+                if kk <= n0 { lemma_cas_pos_mono2(off, sec, kk, n0); /*@C09*/ assert(false); } /* tagged: at exit every block has been visited */
                 assert(kk == n0 + 1);
                 assert(chunks_before(sec, n0 + 1) == chunks_before(sec, n0) + sec[n0].num_entries);
                 assert forall|b: int, j: int| 0 <= b < n0 && 0 <= j < sec0[b].num_entries implies trunc_ok(#[trigger] tv(ret)[chunks_before(sec0, b) + j], data0, off, sec0, b, j) by {
@@ -454,7 +454,7 @@ impl MDBShardInfo {
                     // the loop condition held: the position is before the end, so this is block kk of the extended list
                     lemma_cas_pos_mono2(off, sec, kk, sec.len() as int); lemma_cas_pos_push(off, sec0, bk, n0);
                     assert(cas_pos(off, sec, n0 + 1) == cas_pos(off, sec, n0) + 48 + 48 * sec[n0].num_entries);
-                    if kk == sec.len() { assert(false); }
+                    if kk == sec.len() { /*@C09*/ assert(false); } /* tagged: the loop condition bounds the scan by the section end */
                     if kk < n0 { lemma_cas_pos_push(off, sec0, bk, kk); assert(cas_hdr_at(data0, cas_pos(off, sec0, kk)) == sec0[kk]); assert(sec[kk] == sec0[kk]); }
                     lemma_chunks_mono(sec, kk, kk);
                 }
@@ -465,7 +465,8 @@ impl MDBShardInfo {
                         let old_v = rv0;
                         assert(tv(ret) == old_v.push(tv(ret).last()));
                         lemma_trunc_push(old_v, tv(ret).last(), data0, off, sec, kk);
-                        assert forall|j: int| 0 <= j < chunk_index + 1 implies trunc_ok(#[trigger] tv(ret)[chunks_before(sec, kk) + j], data0, off, sec, kk, j) by {
+                        // (tagged: the element just pushed is the table row of this chunk)
+                        /*@C09*/ assert forall|j: int| 0 <= j < chunk_index + 1 implies trunc_ok(#[trigger] tv(ret)[chunks_before(sec, kk) + j], data0, off, sec, kk, j) by {
                             if j < chunk_index { assert(tv(ret)[chunks_before(sec, kk) + j] == old_v[chunks_before(sec, kk) + j]); }
                         }
                     }
